@@ -26,10 +26,12 @@ type vChain struct {
 	seenAfter int  // status filter 0 observed on its Response after the chain returned (0: not observed)
 	panicAt  int // position at which to panic (-1 none): 2*i before filter i passes on, 2*i+1 after; 2*n handler before write, 2*n+1 after
 	panicVal string
+	panics   int // how many times a panic was raised
 }
 
 func (k *vChain) maybePanic(pos int) {
 	if k.panicAt == pos {
+		k.panics++
 		panic(k.panicVal)
 	}
 }
